@@ -59,6 +59,12 @@ def parsePipe : Nat → List String → Option (Pipe × List String)
     | "filter" :: g :: rest => do
       let g ← parsePred g; let (p, rest) ← parsePipe fuel rest
       pure (.filter g p, rest)
+    -- asynchronous stages (ASYNC cases only): for the list-level meaning Buffered is the identity and the
+    -- concurrent map is Map (up to order)
+    | "buffered" :: _ :: rest => parsePipe fuel rest
+    | "cmap" :: _ :: f :: rest => do
+      let f ← parseFn f; let (p, rest) ← parsePipe fuel rest
+      pure (.map f p, rest)
     | "limit" :: n :: rest => do
       let n ← n.toInt?; let (p, rest) ← parsePipe fuel rest
       pure (.limit n 1 p, rest)
@@ -104,16 +110,20 @@ def parseFault (s : String) : Option (Option (Nat × FaultKind)) :=
 def parseRun (ts : List String) : Option Run :=
   match ts with
   | [c, t, f] => do
-    let c ← match c with | "collect" => some Consumer.collect | "user" => some .user | _ => none
+    let c ← match c with
+      | "collect" => some Consumer.collect | "user" => some .user
+      | _ => if c.startsWith "cuser:" then some .user else none
     let t ← if t == "all" then some none
             else match t.splitOn ":" with | ["take", n] => n.toInt?.map some | _ => none
     let f ← parseFault f
     pure { consumer := c, take := t, fault := f }
   | _ => none
 
-/-- "pipe || run || run" -/
+def isAsync (c : String) : Bool := c.startsWith "ASYNC "
+
+/-- "pipe || run || run" (an "ASYNC " prefix marks pipelines with Buffered / concurrent stages) -/
 def parseCase (c : String) : Option (Pipe × List Run) :=
-  match splitAt "||" (words c) with
+  match splitAt "||" (words (if isAsync c then (c.drop 6).toString else c)) with
   | ptoks :: runs => do
     let (p, rest) ← parsePipe 200 ptoks
     if !rest.isEmpty then none
@@ -192,6 +202,7 @@ structure ObsRun where
   calls : Nat
   pre : Nat
   events : List (Nat × String)
+  leak : Nat := 0
 
 def parseObsRun (s : String) : Option ObsRun :=
   match splitAt "|" (words s) with
@@ -204,6 +215,16 @@ def parseObsRun (s : String) : Option ObsRun :=
         | _ => none)
     let (ok, cls) := if res == "ok" then (true, "ok") else (false, (res.drop 4).toString)
     pure { ok := ok, cls := cls, delivered := del, calls := calls, pre := pre, events := events }
+  | [[res, del], [calls, pre], [evs], [leak]] => do
+    let calls ← (calls.drop 6).toString.toNat?
+    let pre ← (pre.drop 4).toString.toNat?
+    let leak ← (leak.drop 5).toString.toNat?
+    let events ← if evs == "-" then some [] else
+      (evs.splitOn ";").mapM (fun e => match e.splitOn ":" with
+        | [r, es] => r.toNat?.map (fun r => (r, es))
+        | _ => none)
+    let (ok, cls) := if res == "ok" then (true, "ok") else (false, (res.drop 4).toString)
+    pure { ok := ok, cls := cls, delivered := del, calls := calls, pre := pre, events := events, leak := leak }
   | _ => none
 
 def parseObs (s : String) : Option (List ObsRun) :=
@@ -247,5 +268,14 @@ def agreeOr (pr : Proj) (model obs : String) : String :=
   match parseObs model, parseObs obs with
   | some ms, some os => if ms.map (projRun pr) == os.map (projRun pr) then obs else model
   | _, _ => model
+
+/-- multiset inclusion of canonical delivered texts -/
+def subMultisetStr (a b : String) : Bool :=
+  let ta := if a == "-" then [] else a.splitOn ","
+  let tb := if b == "-" then [] else b.splitOn ","
+  let rec go : List String → List String → Bool
+    | [], _ => true
+    | x :: xs, ys => if ys.contains x then go xs (ys.erase x) else false
+  go ta tb
 
 end ShpanVerif.Drive.PipeCommon
